@@ -35,9 +35,13 @@ func writeEventList(tx stoabs.WriteTx, newEventList eventList, id did.DID) error
 		newEventList.Events[i].MetaRef = fmt.Sprintf("%s%d", id.String(), i)
 	}
 
-	nelBytes, _ := json.Marshal(newEventList)
+	// e.g. a signing time with a year outside [0,9999] can't be marshalled, storing the (empty) result would wipe the history
+	nelBytes, err := json.Marshal(newEventList)
+	if err != nil {
+		return fmt.Errorf("marshalling event list: %w", err)
+	}
 	eventShelf := tx.GetShelfWriter(eventShelf)
-	err := eventShelf.Put(stoabs.BytesKey(id.String()), nelBytes)
+	err = eventShelf.Put(stoabs.BytesKey(id.String()), nelBytes)
 	if err != nil {
 		return err
 	}
@@ -209,7 +213,10 @@ func applyEvent(tx stoabs.WriteTx, latestMetadata *documentMetadata, nextEvent e
 	if err != nil {
 		return nil, nil, fmt.Errorf("failed to apply next document: %w", err)
 	}
-	metadataBytes, _ := json.Marshal(nextMetadata)
+	metadataBytes, err := json.Marshal(nextMetadata)
+	if err != nil {
+		return nil, nil, fmt.Errorf("marshalling document metadata: %w", err)
+	}
 	metadataWriter := tx.GetShelfWriter(metadataShelf)
 	if err = metadataWriter.Put(stoabs.BytesKey(fmt.Sprintf("%s%d", nextDocument.ID.String(), nextMetadata.Version)), metadataBytes); err != nil {
 		return nil, nil, err
